@@ -155,10 +155,10 @@ Theorem c10_write_never_blocks :
   forall p room,
   let len := zlen (p_ibuf p) in
   exists w, wres_of (kernel_write PIPE_NONBLOCK_STDIN room len) = Some w /\
-            p_broken p = false ->
-            let '(p', r) := flush p w in
-            r = FOk /\ p_accepted p' ++ p_ibuf p' = p_accepted p ++ p_ibuf p /\
-            exists k, p_accepted p' = p_accepted p ++ k.
+            (p_broken p = false ->
+             let '(p', r) := flush p w in
+             r = FOk /\ p_accepted p' ++ p_ibuf p' = p_accepted p ++ p_ibuf p /\
+             exists k, p_accepted p' = p_accepted p ++ k).
 Proof. exact write_never_blocks. Qed.
 Print Assumptions c10_write_never_blocks.
 
